@@ -517,16 +517,19 @@ impl<S: BitmapSlice + Send + Sync> PassthroughFs<S> {
 /// verif hook: the private `getdents64` buffer helpers of `do_readdir`, for differential tests.
 #[cfg(fuse_backend_rs_verif)]
 impl<S: BitmapSlice + Send + Sync> PassthroughFs<S> {
+    /// verif hook: `skip_to_cookie`
     #[cfg(fuse_backend_rs_verif)]
     pub fn verif_skip_to_cookie(buf: &mut Vec<u8>, offset: u64) -> bool {
         Self::skip_to_cookie(buf, offset)
     }
 
+    /// verif hook: `last_cookie_in_buf`
     #[cfg(fuse_backend_rs_verif)]
     pub fn verif_last_cookie_in_buf(buf: &[u8]) -> Option<u64> {
         Self::last_cookie_in_buf(buf)
     }
 
+    /// verif hook: `only_dot_entries`
     #[cfg(fuse_backend_rs_verif)]
     pub fn verif_only_dot_entries(buf: &[u8]) -> bool {
         Self::only_dot_entries(buf)
